@@ -294,6 +294,29 @@ def big_grid_leaves(rep, t2grids, leaves, rng, mine):
             rep.traces += 1
             if bad:
                 rep.violation("rename-map-in-print-form", "C09_PhysUnchanged", {"map": m_, "difference": bad})
+        if "C09_PhysUnchanged" in mine:
+            # a fixed case for the file cycle: a model symmetric about its origin (block centres with coordinates of exactly 0.0),
+            # one atmosphere block without a centre, reordered so that this block is no longer the first, then written and read
+            mulgrids = core.repo_modules("mulgrids")
+            try:
+                with core.quiet(), core.watchdog(120):
+                    geo0 = mulgrids.mulgrid().rectangular([10.0, 10.0], [10.0], [10.0, 10.0], origin=[-5.0, -5.0, 5.0], atmos_type=0)
+                    g = t2grids.t2grid().fromgeo(geo0)
+                    names_ = [b.name for b in g.blocklist]
+                    g.reorder(names_[1:] + names_[:1])
+                    p0 = phys(g)
+                    dat = t2data.t2data()
+                    dat.grid = g
+                    f = os.path.join(work, "sym.dat")
+                    dat.write(f)
+                    bad = phys_difference(p0, phys(t2data.t2data(f).grid), 2e-4)
+            except Exception as ex:
+                bad = "write / read raised %r" % ex
+            rep.case(("file-cycle-symmetric",))
+            rep.traces += 1
+            if bad:
+                rep.violation("file-cycle-symmetric-reordered", "C09_PhysUnchanged",
+                              {"grid": "2 x 1 x 2 blocks about the origin, atmosphere block moved to the end", "difference": bad})
         for k, (grid, geo) in enumerate(leaves):
             det = {"grid": "rectangular %d blocks, atmosphere type %d" % (grid.num_blocks, geo.atmosphere_type)}
             if "C09_PhysUnchanged" in mine:
@@ -310,14 +333,16 @@ def big_grid_leaves(rep, t2grids, leaves, rng, mine):
                         dat = t2data.t2data()
                         dat.grid = grid
                         f = os.path.join(work, "g%d.dat" % k)
-                        if k % 3 == 1:
-                            # AUTOUGH2's extra-precision companion file carries centres and gravity cosines in full
-                            dat.simulator = "AUTOUGH2.2"
-                            dat.write(f, extra_precision=True)
-                        else:
-                            dat.write(f)
+                        dat.write(f)
                         g2 = t2data.t2data(f).grid
-                    bad = phys_difference(p0, phys(g2), 2e-4)
+                        bad = phys_difference(p0, phys(g2), 2e-4)
+                        if not bad and k % 3 == 1:
+                            # once more with AUTOUGH2's extra-precision companion file, which carries centres and gravity cosines in full
+                            dat.simulator = "AUTOUGH2.2"
+                            f = os.path.join(work, "x%d.dat" % k)
+                            dat.write(f, extra_precision=True)
+                            g2 = t2data.t2data(f).grid
+                            bad = phys_difference(p0, phys(g2), 2e-4)
                 except Exception as ex:
                     bad = "write / read raised %r" % ex
                 rep.case(("file-cycle", k))
